@@ -140,6 +140,32 @@ fn adaptor_reads_after(script: Vec<Msg>, total: usize, read_size: usize, delay_m
     Ok(r.0)
 }
 
+/// ... through `read_exact` (one ReadBuf kept across polls, so the adaptor is handed a partly filled buffer): spans of `span` bytes
+fn adaptor_reads_exact(script: Vec<Msg>, total: usize, span: usize) -> Result<(Vec<u8>, Result<usize, String>), String> {
+    EXPECT_FROM_CLIENT.with(|c| c.set(0));
+    let r = with_server(script, move |mut ws, close| Box::pin(async move {
+        let mut got = vec![];
+        while got.len() < total {
+            let n = span.min(total - got.len());
+            let mut buf = vec![0u8; n];
+            match tokio::time::timeout(WATCHDOG, ws.read_exact(&mut buf)).await {
+                Err(_) => return (got, Err("read_exact never returned (bytes lost)".to_string())),
+                Ok(Err(e)) => return (got, Err(format!("read_exact error {e}"))),
+                Ok(Ok(_)) => got.extend_from_slice(&buf),
+            }
+        }
+        let _ = close.send(());
+        let mut buf = [0u8; 8];
+        let after = match tokio::time::timeout(WATCHDOG, ws.read(&mut buf)).await {
+            Err(_) => Err("read after close never returned".to_string()),
+            Ok(Err(e)) => Err(format!("read error after close: {e}")),
+            Ok(Ok(n)) => Ok(n),
+        };
+        (got, after)
+    }))?;
+    Ok(r.0)
+}
+
 /// Level 2: a connection over the adaptor. Returns the rendered results of read() until Disconnected/error.
 fn framed_reads(script: Vec<Msg>, expect_results: usize) -> Result<Vec<String>, String> {
     EXPECT_FROM_CLIENT.with(|c| c.set(0));
@@ -404,6 +430,24 @@ pub fn sites(tier: Tier) -> Vec<Site> {
                 acc.eval();
                 let replay = json!({"site": "adaptor-partitions", "index": i, "messages": msgs.iter().map(|m| m.len()).collect::<Vec<_>>(), "read_size": size});
                 judge_adaptor(acc, i, guard(|| adaptor_reads(script, stream.len(), size)), &stream, &format!("messages {:?}, read size {size}", msgs.iter().map(|m| m.len()).collect::<Vec<_>>()), replay);
+            }));
+    }
+    // 1a'. the same partitions read with read_exact (the caller's buffer arrives partly filled at the adaptor)
+    {
+        let n: usize = if tier == Tier::Thorough { 12 } else { 8 };
+        let stream: Vec<u8> = (0..n).map(|i| 0x41 + i as u8).collect();
+        let parts = 1u64 << (n - 1);
+        let spans: Vec<usize> = vec![2, 3, 5, n];
+        sites.push(Site::new("adaptor-read-exact", parts * spans.len() as u64,
+            &format!("every partition of a {n}-byte stream into binary messages (2^{}) x read_exact of {{2, 3, 5, {n}}} bytes at a time", n - 1),
+            move |i, acc| {
+                let mask = i / spans.len() as u64;
+                let span = spans[(i % spans.len() as u64) as usize];
+                let msgs = partition(&stream, mask);
+                let script: Vec<Msg> = msgs.iter().map(|m| Msg::Bin(m.clone())).collect();
+                acc.eval();
+                let replay = json!({"site": "adaptor-read-exact", "index": i, "messages": msgs.iter().map(|m| m.len()).collect::<Vec<_>>(), "span": span});
+                judge_adaptor(acc, i, guard(|| adaptor_reads_exact(script, stream.len(), span)), &stream, &format!("messages {:?}, read_exact of {span}", msgs.iter().map(|m| m.len()).collect::<Vec<_>>()), replay);
             }));
     }
     // 1b. non-binary messages (text, ping, empty binary) interleaved at every boundary, budget 2
